@@ -7,24 +7,28 @@ import (
 	"verifharness/sgc"
 )
 
-func TestX(t *testing.T) {
-	for _, b := range []string{
-		`leaf a { type uint8 { range "1..5 | max"; } }`, `leaf a { type uint8 { range "max"; } }`, `leaf a { type int8 { range "min | 5..10"; } }`, `leaf a { type int8 { range "min"; } }`,
-		`typedef t { type string { length "2..10"; } } leaf a { type t { length "max"; } }`, `typedef t { type string { length "2..10"; } } leaf a { type t { length "min"; } }`,
-		`typedef t { type string { length "2..10"; } } leaf a { type t { length "min | 5 | max"; } }`, `leaf a { type string { length "max"; } }`,
-		`typedef t { type uint8 { range "10..20 | 30..40"; } } leaf a { type t { range "min | 15 | max"; } }`, `leaf a { type uint8 { range "max | 1"; } }`, `leaf a { type uint8 { range "1 | min"; } }`,
-	} {
-		res := sgc.CompileTexts([]string{"m"}, []string{`module m { namespace "urn:m"; prefix m; ` + b + ` }`}, sgc.Opts{Features: sgc.AllFeatures{}})
-		fmt.Printf("%-90s %s\n", b, res.Describe())
-		if res.OK() {
-			ty := res.MS.Child("a").Type()
-			var acc []string
-			for _, v := range []string{"0", "1", "2", "5", "10", "15", "20", "30", "40", "127", "-128", "255", "ab", "abcdefghij", "abcde", "a"} {
-				if ty.Validate(nil, []string{"a"}, v) == nil {
-					acc = append(acc, v)
-				}
-			}
-			fmt.Println("      accepts", acc)
-		}
+func comp(label string, names, texts []string) {
+	res := sgc.CompileTexts(names, texts, sgc.Opts{Features: sgc.AllFeatures{}})
+	d := res.Describe()
+	if len(d) > 200 {
+		d = d[:200]
 	}
+	fmt.Printf("%-40s %s\n", label, d)
+}
+
+func TestX(t *testing.T) {
+	m := func(b string) []string { return []string{`module m { namespace "urn:m"; prefix m; ` + b + ` }`} }
+	comp("notif status current under deprecated", []string{"m"}, m(`notification n { status deprecated; leaf x { status current; type string; } }`))
+	comp("container status current under deprecated", []string{"m"}, m(`container n { status deprecated; leaf x { status current; type string; } }`))
+	comp("rpc input status", []string{"m"}, m(`rpc r { status obsolete; input { leaf x { status current; type string; } } }`))
+	comp("deviate replace dup units", []string{"m", "d"}, []string{m(`leaf x { type string; units "u0"; }`)[0], `module d { namespace "urn:d"; prefix d; import m { prefix m; } deviation /m:x { deviate replace { units "u1"; units "u2"; } } }`})
+	comp("deviate add dup units", []string{"m", "d"}, []string{m(`leaf x { type string; }`)[0], `module d { namespace "urn:d"; prefix d; import m { prefix m; } deviation /m:x { deviate add { units "u1"; units "u2"; } } }`})
+	comp("deviation into notification", []string{"m", "d"}, []string{m(`notification n { leaf x { type string; } leaf y { type string; } }`)[0], `module d { namespace "urn:d"; prefix d; import m { prefix m; } deviation /m:n/m:x { deviate not-supported; } }`})
+	comp("deviation into rpc input", []string{"m", "d"}, []string{m(`rpc r { input { leaf x { type string; } leaf y { type string; } } }`)[0], `module d { namespace "urn:d"; prefix d; import m { prefix m; } deviation /m:r/m:input/m:x { deviate not-supported; } }`})
+	comp("fraction-digits on derived", []string{"m"}, m(`typedef t { type decimal64 { fraction-digits 2; } } leaf a { type t { fraction-digits 4; } }`))
+	comp("base under int32", []string{"m"}, m(`identity foo; leaf a { type int32 { base foo; } }`))
+	comp("length under int32", []string{"m"}, m(`leaf a { type int32 { length "1..2"; } }`))
+	comp("keyless state list", []string{"m"}, m(`list l { config false; leaf a { type string; } }`))
+	comp("description no arg", []string{"m"}, m(`leaf a { type string; description; }`))
+	comp("pattern a)(b", []string{"m"}, m(`leaf a { type string { pattern "a)(b"; } }`))
 }
